@@ -203,15 +203,14 @@ func runRPC(t *testing.T, rc *core.RunCtx, prop string) {
 		hist := []snap{{src.Time(nil), src.QueueTick()}}
 		srcRes := map[string]am.Result{} // op id -> what the source did
 		srcPos := map[string]int{}       // op id -> history position after it
+		dupExec := map[string][2]int{}   // op id -> the two executions of a retried call
 		src.BindTracer(&rpcTracer{TracerNoOp: &am.TracerNoOp{Id: "h"}, end: func(tx *am.Transition) {
 			hist = append(hist, snap{src.Time(nil), src.QueueTick()})
 			s.Logf("source #%d %v q%d", len(hist)-1, src.Time(nil), src.QueueTick())
 			if id, ok := tx.Mutation.Args["op"].(string); ok {
-				if _, dup := srcPos[id]; dup && strings.HasPrefix(id, "r") {
-					// (everything judged afterwards would be about which of the
-					// two executions the client's answer belongs to)
-					s.Fail(prop+"/executed-twice/"+mode, "remote mutation %s was executed twice on the source (snapshots #%d and #%d): the client retried a call that had already been carried out", id, srcPos[id], len(hist)-1)
-					return
+				if _, dup := srcPos[id]; dup && strings.HasPrefix(id, "r") && !tx.IsAuto() && !tx.Mutation.IsCheck {
+					// the client retried a call the source had already carried out
+					dupExec[id] = [2]int{srcPos[id], len(hist) - 1}
 				}
 				if tx.IsAccepted.Load() {
 					srcRes[id] = am.Executed
@@ -521,6 +520,10 @@ func runRPC(t *testing.T, rc *core.RunCtx, prop string) {
 						if proj(hist[i].tm, srcNames) == r.view {
 							visible = true
 						}
+					}
+					if d, dup := dupExec[r.op.id]; !visible && dup {
+						s.Fail("C09/executed-twice/"+mode, "remote mutation %s was executed twice on the source (snapshots #%d and #%d: the client retried a call that had already been carried out); it returned %v with the mirror showing%s, the state after the first execution", r.op.id, d[0], d[1], r.res, r.view)
+						return
 					}
 					if !visible {
 						s.Fail("C09/effect-not-visible/"+ctxKey(), "remote mutation %s returned %v but the mirror then showed%s, older than the source snapshot #%d in which the mutation ended (%s)", r.op.id, r.res, r.view, srcPos[r.op.id], strings.TrimSpace(proj(hist[srcPos[r.op.id]].tm, srcNames)))
